@@ -5,6 +5,7 @@ SPEC = {
     "lean_dirs": ["SemaModel/C15"],
     "harness": "c15",
     "harness_args": {"quick": ["-n", 3000, "-hist", 6, "-steps", 25], "thorough": ["-n", 40000, "-hist", 40, "-steps", 40]},
+    "timeout": {"quick": 170, "thorough": 1100},
     "level": "proof",
     "tie": "T3: the real cluster.distributePoints (tagged wrapper cluster.VerifDistributePoints) and the hand-written Lean model are run on the same op lines "
            "(boundary grid: count limit 1..3, size limit 16..48, 0..2 shards at / just below / above each limit, 0..4 points; random: 0..5 shards, 0..13 points, "
